@@ -197,7 +197,7 @@ Definition results_of (atts : list attempt) : rmap :=
 
 (** ---- Session.handleDATA ------------------------------------------------------------- *)
 
-Inductive reply := R250 | R550 | R554.
+Inductive reply := R250 | R550 | R552 | R554.
 Definition is_2xx (c : reply) : bool := match c with R250 => true | _ => false end.
 
 Definition reply_for (m : rmap) (r : str) : reply :=
@@ -211,6 +211,36 @@ Definition lmtp_data (w : world) (folder : str) (rs : list str) (p : parsed) (cl
   if negb (p_ok p) then (w, map (fun _ => R554) rs, map (fun r => mkAtt w w r false) rs)   (* rejectMessage: nothing attempted *)
   else
     let '(w', atts) := deliver_all w folder rs p clk 0 in
+    (w', map (reply_for (results_of atts)) rs, atts).
+
+(** ---- handleDATA under a configuration ------------------------------------------------ *)
+
+(** the configuration fields handleDATA reads (config.Config: LMTP.MaxSize,
+    Delivery.DefaultFolder, Delivery.QuotaEnabled; Delivery.QuotaLimit enters
+    through [over_quota]).  MaxRecipients, AllowedDomains, RejectUnknownUser act
+    at RCPT time: they decide which recipients are in [rs] at all. *)
+Record cfg := mkCfg { c_folder : str; c_max_size : Z; c_quota_enabled : bool }.
+
+(** the quota pass of handleDATA as the code has it NOW: for every recipient
+    CheckQuota is computed and a failure is only LOGGED ("Continue with other
+    recipients"); the list handed to DeliverToMultipleRecipients is s.recipients
+    itself.  [over_quota r] stands for "CheckQuota(local part of r, size, limit)
+    returned an error" (a function of the shared and per-user databases). *)
+Definition quota_log (c : cfg) (over_quota : str -> bool) (rs : list str) : list str :=
+  if c_quota_enabled c then filter over_quota rs else [].
+Definition deliver_to (c : cfg) (over_quota : str -> bool) (rs : list str) : list str :=
+  let _logged := quota_log c over_quota rs in rs.
+
+(** handleDATA from the end of data on: ReadDataCommand over the size limit ->
+    rejectMessage(552) (one reply per recipient, nothing attempted, raven
+    d9a1abb + aeac4b2); else ParseMessage/ValidateMessage/deliveries as
+    [lmtp_data], on the list [deliver_to] for the map and on [rs] for the replies *)
+Definition handle_data (c : cfg) (over_quota : str -> bool) (w : world) (rs : list str)
+           (p : parsed) (size : Z) (clk : nat -> Z) : world * list reply * list attempt :=
+  if c_max_size c <? size then (w, map (fun _ => R552) rs, map (fun r => mkAtt w w r false) rs)
+  else if negb (p_ok p) then (w, map (fun _ => R554) rs, map (fun r => mkAtt w w r false) rs)
+  else
+    let '(w', atts) := deliver_all w (c_folder c) (deliver_to c over_quota rs) p clk 0 in
     (w', map (reply_for (results_of atts)) rs, atts).
 
 (** ---- IMAP operations on a world (prior histories) ----------------------------------- *)
